@@ -149,13 +149,14 @@ STATE_NAMES = {"R": "running", "S": "sleeping", "D": "disk sleep",
 
 class Ctx:
     """Per (simulated) thread execution context."""
-    __slots__ = ("thread", "op", "acc", "inop", "pacc")
+    __slots__ = ("thread", "op", "acc", "inop", "pacc", "kc")
 
     def __init__(self, thread=0):
         self.thread = thread
         self.op = -1
         self.acc = 0
         self.pacc = 0
+        self.kc = {}
         self.inop = False
 
 
@@ -236,6 +237,7 @@ class SimKernel:
         self.cur_thread = 0
         self.pending = {}   # (thread, op, k) -> [events]
         self.pending_p = {}  # (thread, op, n-th procfs access) -> [events]
+        self.fault_kind = {}  # (thread, op, kind, n-th of that kind) -> fault
         self.faults = {}    # (thread, op, k) -> fault dict
         self.timed = []     # sorted list of (t, seq, ev)
         self._tseq = 0
@@ -245,6 +247,9 @@ class SimKernel:
         self.clock_reads = 0
         self.slept = 0.0
         self.fault_filter = None
+        self.statreads = []
+        self.procstat_reads = []
+        self.tabreads = []
         # boot processes
         self.spawn(pid=1, ppid=0, comm=b"init", starttime=2, _boot=True)
         self.spawn(pid=self.self_pid, ppid=self.self_ppid, comm=b"python3",
@@ -279,6 +284,7 @@ class SimKernel:
         c.op = op_index
         c.acc = 0
         c.pacc = 0
+        c.kc = {}
         c.inop = True
 
     def end_op(self, thread=None):
@@ -347,6 +353,10 @@ class SimKernel:
             self.trace.append([c.thread, c.op, k, kind, str(arg)])
         if c.inop:
             f = self.faults.get(key)
+            if self.fault_kind:
+                n = c.kc.get(kind, 0)
+                c.kc[kind] = n + 1
+                f = self.fault_kind.get((c.thread, c.op, kind, n), f)
             if f is not None:
                 self.stat_inc("fault_" + f.get("kind", "err"))
                 self.digest.update(b"F")
@@ -1004,6 +1014,10 @@ class SimKernel:
         if tid is not None and tid not in p.threads:
             raise self._err(errno.ESRCH, path)
         if what == "stat":
+            if tid is None:
+                c = self.ctxs[self.cur_thread]
+                self.procstat_reads.append((c.thread, c.op, p.pid,
+                                            p.utime + p.stime, self.mono))
             return self.render_stat(p, tid if tid != p.pid or
                                     path.find("/task/") >= 0 else None)
         if what == "status":
@@ -1090,6 +1104,15 @@ class SimKernel:
         if f.node is not None:
             return self.proc_file_bytes(f.node, f.path)
         if f.sysfile:
+            if f.path == "/proc/stat":
+                c = self.ctxs[self.cur_thread]
+                self.statreads.append((c.thread, c.op, {
+                    cc: list(self.cpu[cc]) for cc in self.cpu_ids},
+                    self.mono, self.version))
+            elif f.path in ("/proc/net/dev", "/proc/diskstats"):
+                c = self.ctxs[self.cur_thread]
+                self.tabreads.append((c.thread, c.op, f.path, self.version,
+                                      self.nacc))
             data = self.system_file(f.path)
             if data is None:
                 raise self._err(errno.ENOENT, f.path)
